@@ -85,9 +85,10 @@ Lemma inv_gen s g t m' k' r' :
   (is_asleep (stk s t) -> forall sd, grole g t <> RWait sd Popped) ->
   pop_ok (mk s t m' k') (gset_role g t r') t ->
   (is_popper k' -> forall u, u <> t -> ~ is_popper (stk s u)) ->
+  (forall f, inflight s t f -> inflight (mk s t m' k') t f) ->
   InvG (mk s t m' k') (gset_role g t r').
 Proof.
-  intros I Ht Enod Eh Et Ef Eft Efp Es1 Es2 Es3 Es4 Eo Sh Rc W1 W2 W3 W4 W5 Nw Nw' Hh Na Po Pp.
+  intros I Ht Enod Eh Et Ef Eft Efp Es1 Es2 Es3 Es4 Eo Sh Rc W1 W2 W3 W4 W5 Nw Nw' Hh Na Po Pp Pin.
   set (s' := mk s t m' k') in *. set (g' := gset_role g t r') in *.
   assert (RO : forall u, u <> t -> grole g' u = grole g u) by (intros u Hu; cbn; apply upd_other; auto).
   assert (RL : forall u sd w, (w = InL \/ w = Popped) -> (grole g' u = RWait sd w <-> grole g u = RWait sd w)).
@@ -98,7 +99,7 @@ Proof.
   { intros u. destruct (Nat.eq_dec u t) as [->|Hu]; [right|left]; cbn [s' mk stk].
     - rewrite upd_same; auto.
     - apply upd_other; auto. }
-  destruct I as [Ishape Iout Islots Iword Ifields Iexcl Iheldl Irdead Ichain Inodup Inodupw Iinl Iownl Iownt Iheld Ipop Ione Ihnz].
+  destruct I as [Ishape Iout Islots Iword Ifields Iexcl Iheldl Irdead Ichain Inodup Inodupw Iinl Iownl Iownt Iheld Ipop Ione Ihnz Ipopd].
   assert (LN : forall sd x, In x (nodes s g sd) -> ndata m' x = ndata (mem s) x /\ nnext m' x = nnext (mem s) x).
   { intros sd x Hx. destruct (Enod x) as [[E|[E _]]|E]; auto; rewrite (Iownl sd x Hx) in E; discriminate. }
   constructor; auto; cbn [s' mk mem stk nthr g' gset_role gl nown grole].
@@ -162,6 +163,16 @@ Proof.
       rewrite ?upd_same, ?upd_other by auto; auto; intros P1 P2;
       first [exfalso; apply (Pp P1 v Hv P2) | exfalso; apply (Pp P2 u Hu P1) | apply Ione; auto].
   - intros sd. rewrite Eh. apply Ihnz.
+  - intros f sd Hf. apply (RL f sd Popped) in Hf; [|auto]. destruct (Ipopd f sd Hf) as [u Hu].
+    destruct (Nat.eq_dec u t) as [->|Hut]; [exists t; apply Pin; exact Hu|].
+    exists u. pose proof (inflight_popper _ _ _ Hu) as PU.
+    assert (NT : ~ is_popper (stk s t)) by (intros PT; apply Hut; apply Ione; auto).
+    specialize (Ipop u). pose proof (Ishape u) as ShU.
+    unfold inflight, pop_ok in *. cbn [s' mk mem stk]. rewrite upd_other by auto.
+    destruct (stk s u) as [|[] ?]; auto.
+    + inversion ShU; subst. destruct Ipop as (A & _).
+      destruct (LN sd0 nx) as [-> _]; auto. unfold nodes. left. exact A.
+    + destruct Ipop as (A & _). destruct (Enod h) as [[E|[_ E]]|[-> _]]; auto; [rewrite A in E; discriminate|tauto].
 Qed.
 
 (* the new counts after the stepping fiber changed role and stack *)
@@ -206,9 +217,10 @@ Lemma inv_gen_keep s g t m' k' r' :
   (is_asleep (stk s t) -> forall sd, grole g t <> RWait sd Popped) ->
   pop_ok (mk s t m' k') (gset_role g t r') t ->
   (is_popper k' -> is_popper (stk s t)) ->
+  (forall f, inflight s t f -> inflight (mk s t m' k') t f) ->
   InvG (mk s t m' k') (gset_role g t r').
 Proof.
-  intros I Ht Enod Eh Et Ew Ef Eft Efp Es1 Es2 Es3 Es4 Eo Sh Rc Ca Co Nw Nw' Hh Na Po Pp.
+  intros I Ht Enod Eh Et Ew Ef Eft Efp Es1 Es2 Es3 Es4 Eo Sh Rc Ca Co Nw Nw' Hh Na Po Pp Pin.
   pose proof (counts_keep s g t m' k' r' Ht Ca Co) as EC.
   apply inv_gen; auto; rewrite ?EC; try apply I.
   - rewrite Ew. apply I.
@@ -232,9 +244,10 @@ Lemma inv_local s g t m' k' r' :
   (is_asleep (stk s t) -> forall sd, grole g t <> RWait sd Popped) ->
   pop_ok (mk s t m' k') (gset_role g t r') t ->
   (is_popper k' -> is_popper (stk s t)) ->
+  (forall f, inflight s t f -> inflight (mk s t m' k') t f) ->
   InvG (mk s t m' k') (gset_role g t r').
 Proof.
-  intros I Ht Ed En Ew Eh Et Ef Es1 Es2 Es3 Es4 Eo Sh Rc Ca Co Nw Nw' Nh Na Po Pp.
+  intros I Ht Ed En Ew Eh Et Ef Es1 Es2 Es3 Es4 Eo Sh Rc Ca Co Nw Nw' Nh Na Po Pp Pin.
   assert (EC : counts (mk s t m' k') (gset_role g t r') = counts s g).
   { rewrite (counts_change s g _ _ t); auto.
     - cbn [mk gset_role stk grole]. rewrite !upd_same, !Ca, !Co, !Z.sub_diag, !Z.add_0_r.
@@ -268,7 +281,7 @@ Ltac stp Hk :=
     try change ((ST_RUNNING =? ST_WAITING) || (ST_RUNNING =? ST_DONE) || (ST_RUNNING =? ST_SAVING)) with false;
     try change ((ST_SAVING =? ST_WAITING) || (ST_SAVING =? ST_DONE) || (ST_SAVING =? ST_SAVING)) with true;
     cbv iota; unfold kloop; stp_rw;
-    cbn [kstep ksched ret cret app got kloop]; unfold kloop; stp_rw;
+    unfold ksched, kloop; stp_rw; cbn [ret cret app got]; unfold kloop; stp_rw;
     try (match goal with H : release ?a ?b = _ |- _ => rewrite H end);
     try (match goal with |- context [start ?a ?b ?c ?d] =>
            let x := fresh "st0" in set (x := start a b c d); rewrite (surjective_pairing x); subst x end);
@@ -300,7 +313,8 @@ Ltac local_prems Hk Hr :=
   try (intros P; exfalso; revert P; apply client_not_popper, start_client);
   try (unfold pop_ok; cbn [mk stk mem]; rewrite upd_same; exact Logic.I);
   try (unfold held_ok; cbn [mk stk mem]; rewrite upd_same; exact Logic.I);
-  try (match goal with HI : InvG _ _ |- _ => apply (i_ownt _ _ HI) end).
+  try (match goal with HI : InvG _ _ |- _ => apply (i_ownt _ _ HI) end);
+  try (intros ? Hin; exfalso; unfold inflight in Hin; rewrite <- Hk in Hin; exact Hin).
 
 Ltac local g t r' Hk Hr :=
   exists (gset_role g t r'); apply inv_local; auto; local_prems Hk Hr.
@@ -437,13 +451,15 @@ Lemma inv_cas s g t n k' r' :
   ~ is_wlink k' -> ~ is_held k' ->
   pop_ok (mk s t (set_word (mem s) 0 n) k') (gset_role g t r') t ->
   (is_popper k' -> forall u, u <> t -> ~ is_popper (stk s u)) ->
+  ~ is_popper (stk s t) ->
   InvG (mk s t (set_word (mem s) 0 n) k') (gset_role g t r').
 Proof.
-  intros I Ht Nw Na Sh Rc W1 W2 W3 W4 W5 Nw' Nh Po Pp.
+  intros I Ht Nw Na Sh Rc W1 W2 W3 W4 W5 Nw' Nh Po Pp NPt.
   apply inv_gen; auto.
   - apply (i_ownt _ _ I).
   - eapply shape_frame; eauto.
   - unfold held_ok. cbn [mk stk]. rewrite upd_same. destruct k' as [|[] ?]; cbn in Nh; tauto.
+  - intros f Hin. exfalso. apply NPt. eapply inflight_popper; eauto.
 Qed.
 
 Lemma cas_word s g e : InvG s g -> (word (mem s) 0 =? e) = true -> e = rw_pack (counts s g) /\ rw_unpack e = counts s g.
@@ -506,6 +522,7 @@ Proof.
     destruct (f_wl C =? 0) eqn:E1; [|apply Z.eqb_neq in E1; assert (f_wl C = 1) by lia; lia].
     destruct (f_wr C =? 0) eqn:E3; [discriminate|apply Z.eqb_neq in E3; apply Rd; lia].
   - apply pop_ok_nonpopper. cbn [mk stk]. rewrite upd_same. destruct sd; cbn; tauto.
+  - rewrite <- Hk. cbn. tauto.
 Qed.
 
 Lemma acquire_inv s g t sd p k e c :
@@ -547,6 +564,7 @@ Proof.
   - destruct sd; cbn; tauto.
   - apply pop_ok_nonpopper. cbn [mk stk]. rewrite upd_same. destruct sd; cbn; tauto.
   - destruct sd; cbn; tauto.
+  - rewrite <- Hk. cbn. tauto.
 Qed.
 
 Definition after_release (t : nat) (p : list rop) (k : nat) (r : Z) (h : handoff) : stack rwc :=
